@@ -768,6 +768,12 @@ func alterationsJ(cl *cluster.Cluster, m, other *pbv1.QBFTConsensusMsg, n int, j
 				out = append(out, alt{class: "value/same-length-same-crc-other-content", msg: cp7})
 			}
 		}
+		// the authentic value wrapped in one more any envelope (its bytes are not the bytes that were hashed)
+		if wrapped, err := anypb.New(m.GetValues()[v]); err == nil {
+			cp8 := cloneMsg(m)
+			cp8.Values[v] = wrapped
+			out = append(out, alt{class: "value/wrapped-in-another-any", msg: cp8})
+		}
 		cp4 := cloneMsg(m)
 		if len(cp4.Values[v].Value) > 2 {
 			cp4.Values[v].Value = cp4.Values[v].Value[:len(cp4.Values[v].Value)-2]
